@@ -17,6 +17,8 @@ thorough tier: pairs of fault points.
 """
 from pyvc.replay import script
 
+LEVEL = "fault_enumeration"   # every disk-changing operation of the sessions is failed once (pairs in the thorough tier)
+
 REPLAY = '''
 def replay():
     """native, real file system: make the archive writer fail while an edited EKO is closed -- the previous archive must survive"""
@@ -225,3 +227,6 @@ def run(chk):
         chk.ground(f"C38.{name}.exception_in_context.archive_untouched", raised and fs.files.get(ARCH) == before and not [l for l in fs.log if l[1].startswith(ARCH)], fn="eko.io.struct:EKO.__exit__", replay=rp,
                    goal="an exception inside the context propagates and no operation touches the archive path", detail=str([l for l in fs.log if l[1].startswith(ARCH)]))
     chk.extra["exhaustive"] = True
+    chk.extra["rule"] = "one execution of the real session code per fault point (each disk-changing operation of the fault-free run fails once), each followed by a fault-free re-run; all fault points are distinct operations"
+    chk.extra["evaluations"] = 2 * chk.configs
+    chk.extra["distinct_nontrivial"] = chk.configs
